@@ -611,6 +611,9 @@ func (c *c15) step(st c15Step) error {
 		wantOK := *st.Tune >= 0
 		gotOK := res.err == nil
 		c.r.Count(fmt.Sprintf("tuned_%+d", *st.Tune), 1)
+		if len(c.steps)%29 == 0 {
+			c.r.Sample(map[string]any{"worker": c.worker, "step": st, "pools_attached": len(c.led.att[c.acct(st.Acc[0])]), "result": errText(res.err)})
+		}
 		c.r.Distinct(fmt.Sprintf("tuned:%s:%+d:%d/%d", st.Op, *st.Tune, len(c.led.att[c.acct(st.Acc[0])]), st.Sector))
 		if wantOK != gotOK {
 			c.report(fmt.Sprintf("tuned-debit-outcome:%s:%+d", st.Op, *st.Tune), fmt.Sprintf("drawable funds were cost%+d but the RPC result was %v", *st.Tune, res.err), nil)
